@@ -687,8 +687,8 @@ Qed.
    substitution only changes the case of the only letter(s) of the string: "219460f373" -> "219460F373"
    (bech32 is case-insensitive by design; this is why the detection theorem is about symbols, not characters) *)
 Theorem bech32_case_substitution_refuted :
-  exists s s' e hrp data, length s = length s' /\
-    (length (filter (fun p => negb (fst p =? snd p)) (combine s s')) = 1)%nat /\
+  exists (s s' : list N) e hrp data, length s = length s' /\
+    length (filter (fun p => negb (N.eqb (fst p) (snd p))) (combine s s')) = 1%nat /\
     decode 90 s = DecOk e hrp data /\ decode 90 s' = DecOk e hrp data.
 Proof.
   exists [50; 49; 57; 52; 54; 48; 102; 51; 55; 51], [50; 49; 57; 52; 54; 48; 70; 51; 55; 51], BECH32, [50], [5; 21].
